@@ -65,7 +65,11 @@ Section Model.
   (* Beam::set_theta_external: the signed external angle goes to the Snell inverse (which mirrors a negative angle) *)
   Definition set_theta_external (b : beam num) (external : num) (cs : crystal_setup num) : outcome (beam num) :=
     match o_snell_inv K b external cs with
-    | None => Panic SiteNelderMeadUnwrap
+    | None =>
+        (* [searches_cannot_fail] (Gen/ConfigSites.v, read off Cost1d::cost, which EVERY nelder_mead_1d call goes through): the solver
+           cannot fail, so there is no panic; the oracle's None then only says that the internal angle found is not a finite number
+           (the value 0 stands for it; finiteness is a separate clause with its own definedness hypothesis) *)
+        if searches_cannot_fail then Ok (set_angles b (b_phi b) (n0 o)) else Panic SiteNelderMeadUnwrap
     | Some th => Ok (set_angles b (b_phi b) th)
     end.
 
@@ -120,12 +124,17 @@ Section Model.
   (* CrystalSetup::optimum_theta *)
   Definition erase_theta (cs : crystal_setup num) : crystal_setup num := set_crystal_theta cs (n0 o).
   Definition optimum_theta (cs : crystal_setup num) (signal pump : beam num) : outcome num :=
-    match o_snell_ext K signal cs with
-    | None => Panic SiteNelderMeadUnwrap      (* NaN external angle -> NaN guess in the inner Snell search *)
+    (* a NaN external angle gives a NaN guess in the inner Snell search: argmin fails there -- unless the solver cannot fail
+       ([searches_cannot_fail]): then every cost is +infinity and the search returns (0 stands for the NaN angle) *)
+    match (match o_snell_ext K signal cs with
+           | Some e => Some e
+           | None => if searches_cannot_fail then Some (n0 o) else None
+           end) with
+    | None => Panic SiteNelderMeadUnwrap
     | Some e =>
         if signal_le_pump signal pump then Panic SiteOptThetaUnwrap
         else match o_nm_theta K (erase_theta cs) e signal pump with
-             | None => Panic SiteNelderMeadUnwrap
+             | None => if searches_cannot_fail then Ok (n0 o) else Panic SiteNelderMeadUnwrap
              | Some th => Ok th
              end
     end.
